@@ -77,6 +77,24 @@ CLAIMED = {
             "by each eager response: one action succeeds, later ones raise and cause no broker call, refusals leave the "
             "handle usable, callbacks in order with the store at the latest set_*, trailing code never runs.",
             FAKES, "DESIGN.md 4 C16"),
+    "C17": ("model_checking", "scripted operation sequences x subscriber sets with a subscriber-free differential twin",
+            "Every wrapped broker / bucket / consumer / actor-run operation is invoked with positional, keyword and mixed "
+            "arguments and inside a full job lifecycle (one and two connections with workers on both) under 7 subscriber "
+            "sets: ordered before/after signal log equals the operations made, arguments by name, owning connection only, "
+            "nested operations silent, and results / broker calls / final state equal the subscriber-free twin.",
+            FAKES, "DESIGN.md 4 C17"),
+    "C08": ("exploration", "bounded-exhaustive enumeration of signatures x payloads x converters against a binding model",
+            "All 1000+ signatures with up to 3 parameters (three kinds, defaults, *args, **kwargs, dependency parameter) x "
+            "all payloads (name subsets, 0-2 extras, '', '{}') x Basic / Pydantic / default selection, each through the real "
+            "_Processor.actor_run: parameters get their entry or default, extras only in a catch-all, missing required "
+            "parameter fails without entering the body, empty payload runs all-defaults actors, outputs round-trip.",
+            "Finite alphabet of int values; at most 3 parameters and 2 extras; not a proof over all signatures.", "DESIGN.md 4 C08"),
+    "C19": ("exploration", "bounded-exhaustive enumeration of pure-function inputs under a pinned clock",
+            "Default back-off over a 5x5x3x5 parameter grid x 82 retry numbers (monotone, within bounds, no exception); "
+            "next execution time over 4 periods x 5 multiples x every microsecond within +-3 us and midpoints x 4 "
+            "deferred_until settings x 3 time-base kinds (whole periods after the base, now < next <= now+period); expiry "
+            "predicate of Parameters / buckets / Job at expiry -1us, 0, +1us, naive and aware.",
+            "Grids, not all integers; cron excluded (croniter not installed).", "DESIGN.md 4 C19"),
 }
 
 PENDING_REASON = "check not built yet in this revision of /verif (see DESIGN.md section 4 for the plan)"
